@@ -17,7 +17,7 @@ from txdbus import authentication, client
 
 PROPERTY = 'C04'
 LEVEL = 'exploration'
-QUICK_RUNS = 6000
+QUICK_RUNS = 4000
 QUICK_BUDGET_S = 120
 THOROUGH_BUDGET_S = 600
 RULE = ('random message sequences (all 4 types, both byte orders, random header-field '
@@ -249,11 +249,13 @@ def scenario(ctx):
         mode = ds.weighted([5, 1, 1, 1])
         sizew = [[6, 2, 1, 2, 1, 1, 1, 1], [1, 0, 0, 0, 0, 0, 0, 0],
                  [0, 0, 1, 0, 0, 0, 0, 0], [1, 3, 0.3, 3, 3, 3, 2, 1]][mode]
+        if mode == 2 and total > 30000:
+            mode, sizew = 0, [6, 2, 1, 2, 1, 1, 1, 1]     # one-byte reads only for modest streams
         if mode == 2:
             sim.probe('one-byte-reads')
         classes = []
         steps = 0
-        while pipe.buf and proto.transport.state == net.OPEN and steps < 200000:
+        while pipe.buf and proto.transport.state == net.OPEN:
             steps += 1
             n, bc = net.chunk_size(ds, pipe, sizew)
             if bc != 'all':
@@ -317,7 +319,7 @@ def sweep(tier):
                 total = 420      # cap the quadratic part: cuts within the first 420 bytes
             for i in range(1, total):
                 single.append({'stream_seed': seed, 'role': role, 'cuts': [i]})
-            lim = total if tier != 'quick' else min(total, 200)
+            lim = total if tier != 'quick' else min(total, 130)
             for i in range(1, lim):
                 for j in range(i + 1, lim):
                     double.append({'stream_seed': seed, 'role': role, 'cuts': [i, j]})
